@@ -101,3 +101,35 @@ def eval_or_blind(chk, ev, rule, path, args=None):
     except sym.Undecided as e:
         chk.blind(rule, path, "value numbering could not decide this function: %s" % e, fn.where())
         return None, fn
+
+
+import re as _re
+
+
+def canon_call_name(name):
+    """declared-method spelling of a resolved callee path: `<X as a::b::Trait<..>>::m` -> `Trait::m`;
+    inherent paths keep their last two segments without generic arguments"""
+    m = _re.match(r"^<.* as ([^<>]*?)(<.*>)?>::(\w+)$", name)
+    if m:
+        return m.group(1).split("::")[-1] + "::" + m.group(3)
+    n = _re.sub(r"::<[^>]*>", "", name)
+    n = _re.sub(r"<impl [^>]*>", "impl", n)
+    parts = n.split("::")
+    return "::".join(parts[-2:])
+
+
+def canon_calls(t):
+    """rename every call node to its canonical short name (so resolved and declared spellings compare equal)"""
+    if not isinstance(t, tuple) or not t:
+        return t
+    if t[0] == "call":
+        return ("call", canon_call_name(t[1]), tuple(canon_calls(x) for x in t[2]))
+    if t[0] == "adt" and t[1].endswith("::Utc"):
+        return ("Utc",)
+    if t[0] == "const" and "Utc" in str(t[1]):
+        return ("Utc",)
+    return tuple(canon_calls(x) if isinstance(x, tuple) else x for x in t)
+
+
+def expect_c(chk, rule, anchor, got, want, where=None, what="value", key=None):
+    return expect(chk, rule, anchor, canon_calls(got), canon_calls(want), where, what, key)
